@@ -82,8 +82,8 @@ def cases(tier, seed):
                 lays["gradp"][lvmax] = gl
                 lays["I_R"][lvmax] = named[(gi + 1) % len(named)]
                 d = dict(mesh)
-                d.update(GEOS[k % 3])
-                d.update({"layouts": lays, "ghost": 1 + k % 3, "nspecies": 1 + (k // 2) % 3, "time": TIMES[k % 4],
+                d.update(GEOS[(k // 3) % 3])     # (factors rotate with different periods so that they do not correlate)
+                d.update({"layouts": lays, "ghost": 1 + k % 3, "nspecies": 1 + (k // 2) % 3, "time": TIMES[(k // 5) % 4],
                           "seed": seed, "int_line": False})
                 opts = []
                 for gp, rx, fl in itertools.product([True, False], repeat=3):
